@@ -324,7 +324,7 @@ impl Network {
                 debug!(
                     "peer {} - {} exceeded the rate for key list",
                     peer_index,
-                    peer.public_key.unwrap().to_base58()
+                    peer.public_key.unwrap_or([0; 33]).to_base58()
                 );
                 return Err(Error::from(ErrorKind::Other));
             }
